@@ -24,6 +24,7 @@ RULE = (
     "identity/composition/inverse/linearity/bijection/norm laws on the recorded results. Non-trivial: g != e and "
     "(>=2 distinct extents or k>=1); distinct by (entry, D, shape, k, p, n_lead)."
 )
+RULE += " Also: realistic sizes (64x64, 80x60, 16^3, ...), one reusable group-element buffer overwritten in place, int32 / NumPy / float64-under-x64 operands."
 ASSUMPTIONS = [
     "reference action vmon/ref/action.py (self-tested: identity, composition, inverse, brute-force loops)",
     "float32 arithmetic on small integers is exact",
